@@ -7,7 +7,10 @@
 #include <etl/_tuple/forward_as_tuple.hpp>
 #include <etl/_tuple/tuple_like.hpp>
 #include <etl/_tuple/tuple_size.hpp>
+#include <etl/_tuple/tuple_element.hpp>
+#include <etl/_type_traits/remove_cvref.hpp>
 #include <etl/_type_traits/remove_reference.hpp>
+#include <etl/_type_traits/type_identity.hpp>
 #include <etl/_utility/forward.hpp>
 #include <etl/_utility/index_sequence.hpp>
 
@@ -24,24 +27,29 @@ inline constexpr struct tuple_cat {
         return etl::forward_as_tuple(get<I1>(etl::forward<T1>(t1))..., get<I2>(etl::forward<T2>(t2))...);
     }
 
-    template <etl::tuple_like Result>
-    [[nodiscard]] constexpr auto operator()(Result&& result) const
+    // R collects the element types of the tuples seen so far, result holds references to their elements
+    template <typename R, etl::tuple_like Result>
+    [[nodiscard]] constexpr auto operator()(etl::type_identity<R> /*r*/, Result&& result) const -> R
     {
         return [&]<etl::size_t... Is>(etl::index_sequence<Is...> /*is*/) {
             using etl::get;
-            return etl::tuple{get<Is>(etl::forward<Result>(result))...};
+            return R(get<Is>(etl::forward<Result>(result))...);
         }(etl::make_index_sequence<etl::tuple_size_v<etl::remove_reference_t<Result>>>{});
     }
 
-    template <etl::tuple_like Result, etl::tuple_like Head, etl::tuple_like... Tail>
-    [[nodiscard]] constexpr auto operator()(Result&& result, Head&& head, Tail&&... tail) const
+    template <typename... Rs, etl::tuple_like Result, etl::tuple_like Head, etl::tuple_like... Tail>
+    [[nodiscard]] constexpr auto
+    operator()(etl::type_identity<etl::tuple<Rs...>> /*r*/, Result&& result, Head&& head, Tail&&... tail) const
     {
         constexpr auto idx1 = etl::make_index_sequence<etl::tuple_size_v<etl::remove_reference_t<Result>>>{};
-        constexpr auto idx2 = etl::make_index_sequence<etl::tuple_size_v<etl::remove_reference_t<Head>>>{};
-        return (*this)(
-            concat(etl::forward<Result>(result), etl::forward<Head>(head), idx1, idx2),
-            etl::forward<Tail>(tail)...
-        );
+        return [&]<etl::size_t... I2>(etl::index_sequence<I2...> idx2) {
+            using next = etl::tuple<Rs..., etl::tuple_element_t<I2, etl::remove_cvref_t<Head>>...>;
+            return (*this)(
+                etl::type_identity<next>{},
+                concat(etl::forward<Result>(result), etl::forward<Head>(head), idx1, idx2),
+                etl::forward<Tail>(tail)...
+            );
+        }(etl::make_index_sequence<etl::tuple_size_v<etl::remove_reference_t<Head>>>{});
     }
 } tuple_cat;
 
@@ -50,7 +58,7 @@ inline constexpr struct tuple_cat {
 template <etl::tuple_like... Tuples>
 [[nodiscard]] constexpr auto tuple_cat(Tuples&&... ts)
 {
-    return etl::detail::tuple_cat(etl::forward<Tuples>(ts)...);
+    return etl::detail::tuple_cat(etl::type_identity<etl::tuple<>>{}, etl::tuple<>{}, etl::forward<Tuples>(ts)...);
 }
 
 } // namespace etl
